@@ -98,7 +98,7 @@ def gen_trace(seed, n_calls=45):
                 # be refused as a whole; then the quote is repaired.  (Second stream: the other draws stay as they were.)
                 if rng2.random() < 0.12:
                     pr = rig.project()
-                    heldnow = sorted(set(a for p in created for a in pr["hold"].get(p, {})))
+                    heldnow = sorted(set(a for p in created for a in pr["hold"].get(p, {}) if a in cur))
                     if heldnow:
                         a = rng2.choice(heldnow)
                         bad = rng2.choice([dict(bid=-2250, ask=-1750), dict(bid=-250, ask=250), dict(bid=-40001, ask=-39999)])
